@@ -26,7 +26,7 @@ class Prop:
             "times, terminal) compared with event-driven references (every element and the completion exactly d later in order, errors "
             "at once, release at the delay source's first event, clock readings). Same-instant ties between a source event and an operator "
             "timer are accepted under any resolution. Distinct = (form, args, output); non-trivial = at least two notifications.")
-    assumptions = ["tie policy", "absolute due times lie after the subscription instant"]
+    assumptions = ["tie policy", "absolute due times lie after the first subscription instant; at a later second subscription of the same observable what is left of them (possibly nothing) is the delay"]
     stubs = []
 
     def generate(self, rng, tier):
@@ -40,7 +40,7 @@ class Prop:
                 sc["sub_delay"] = ctx.new_source("cold", prefix="p", maxn=1, positive_first=True)
         sc["sources"] = ctx.sources
         off = rng.choice([None, None, None, 37, 123, 411])
-        if off and "absolute" not in form:
+        if off:
             sc["sub2_t"] = 205 + off
         return sc
 
@@ -69,6 +69,14 @@ class Prop:
 
     def model(self, eng, sc):
         f, d, sid = sc["form"], float(sc["d"]), sc["src"]
+        if "absolute" in f:
+            left = sc["sub_t"] + d - eng.now  # an absolute due time: what is left of it at this subscription
+            if left < 0 and f == "delay_absolute":
+                # already past: the statement does not say whether an element beats an error arriving at the same instant
+                evs = [s for s in sc["sources"] if s["id"] == sid][0]["events"]
+                if any(e[1] == "E" and any(x[1] == "N" and x[0] == e[0] for x in evs) for e in evs):
+                    raise tm.Tie()
+            d = max(0.0, left)
         if f.startswith("delay_subscription"):
             return tm.m_delay_subscription(eng, sid, d)
         if f.startswith("delay_with_mapper"):
